@@ -540,6 +540,23 @@ def compress_inputs(rng, tier, kind, hdr_flag_small):
     # writes with matches capped at 0x1000; a debug_assert on that "invariant" panics in debug builds only)
     for npre, nrun in (((68000, 8300), (75000, 13000)) if tier == "quick" else ((68000, 8300), (72000, 9000), (80000, 13000), (66000, 20000))):
         cases.append(Case("%s 0 %s+%s" % (kind, hexb(rand_bytes(rng, npre)), ptok(nrun, bytes([rng.getrandbits(8)]))), "noise-then-long-run"))
+    # inputs that are THEMSELVES complete compressed streams (literal-only LZ10 / wrapped LZ11 streams of small payloads): the
+    # compressor must compress them like any other bytes (seeded change C08-5 passed "already compressed" input through)
+    for n in (1, 5, 8, 9, 16, 40):
+        inner = rand_bytes(rng, n)
+        body = b""
+        for i in range(0, n, 8):
+            body += b"\x00" + inner[i:i + 8]
+        s10 = bytes([0x10, n & 0xFF, n >> 8, 0]) + body
+        s11 = bytes([0x11, n & 0xFF, n >> 8, 0]) + body
+        s13 = bytes([0x13, n & 0xFF, n >> 8, 0]) + s11
+        for stream in (s10, s13, s11):
+            cases.append(Case("%s %s %s" % (kind, hdr_flag_small(len(stream)), hexb(stream)), "input-is-a-compressed-stream"))
+    # more than 65536 consecutive LITERAL tokens: 3-byte records (hi, lo, 0xFF) of a counter - no 3-byte substring repeats, so
+    # the compressor never finds a match (seeded change C08-6 counted consecutive literals in a u16: overflow panic in debug builds)
+    for nrec in ((22000, 23500) if tier == "quick" else (22000, 23500, 30000, 44000)):
+        data = b"".join(bytes([i >> 8 & 0xFF, i & 0xFF, 0xFF]) for i in range(nrec))
+        cases.append(Case("%s 0 %s" % (kind, hexb(data)), "no-match-longer-than-65536"))
     # F21: LZ10 compress must REJECT 2^24 bytes and more (Err(InputTooLarge)); compared with the model too (flag 1: the
     # model's guard answers before anything is computed)
     if kind == "lz10c":
